@@ -118,7 +118,7 @@ STR_OPS = {'NORM', 'HEX', 'B58ENC', 'BECH32', 'FORMAT', 'STR', 'DECODE', 'JOIN',
            'STRCAT', 'JSON', 'LOWER'}
 INT_OPS = {'INT', 'INT_SIGNED', 'ADD', 'SUB', 'MUL', 'MOD', 'FLOORDIV', 'POW', 'LEN', 'SK_ADD_INT', 'INTCAST', 'RANDBITS',
            'LSHIFT', 'RSHIFT', 'BITAND', 'BITOR', 'BITXOR', 'NEG', 'ORD', 'INT2'}
-BOOL_OPS = {'LT', 'EQ', 'NOT', 'AND', 'OR', 'IN', 'IS', 'ISINSTANCE', 'BOOL', 'VALID_SK', 'LE'}
+BOOL_OPS = {'LT', 'EQ', 'NOT', 'AND', 'OR', 'IN', 'IS', 'ISINSTANCE', 'BOOL', 'VALID_SK', 'LE', 'ALL', 'ANY'}
 POINT_OPS = {'PT', 'PT_ADD', 'PARSE_PT', 'PARSE_PT_UNVALIDATED'}
 
 
@@ -936,6 +936,9 @@ def phi(c, a, b):
         return c
     if a == FALSE and b == TRUE:
         return not_(c)
+    # x == y ? y : x  is x  (where they are equal either name will do: "skip the work if already normalised")
+    if is_op(c, 'EQ') and len(c) == 4 and {a, b} == {c[2], c[3]}:
+        return b
     # fixed-shape sequences of equal length (and mappings with the same keys) are joined element by element
     if tag(a) in ('list', 'tuple') and tag(b) == tag(a) and len(a[1]) == len(b[1]):
         return (a[0], tuple(x if x == y else phi(c, x, y) for x, y in zip(a[1], b[1])))
